@@ -380,3 +380,21 @@ def late_nested(which, kind: int, bfail: bool, c0: int, c1: int, c2: int, c3: in
 
 SCN["late_nested"] = (["0 <= kind < 2"], 600, 1800, ("quick", "thorough"))
 scn.__dict__["late_nested"] = late_nested
+
+
+def map_in_map(which, omc: int, imc: int, c0: int, c1: int, c2: int, c3: int, c4: int, c5: int, c6: int, c7: int, c8: int, c9: int,
+               c10: int, c11: int):
+    """A Map (MaxConcurrency omc) over two items whose iterator is itself a Map (MaxConcurrency imc) over the item's
+    two members, each processed by a Pass.  Results: outer item order, inner member order."""
+    omc = cint(omc, 0, 2); imc = cint(imc, 0, 2)
+    inner = {"Type": "Map", "ItemsPath": "$.m", "MaxConcurrency": imc, "End": True,
+             "Iterator": {"StartAt": "L", "States": {"L": {"Type": "Pass", "Parameters": {"v.$": "$.k"}, "End": True}}}}
+    asl = {"StartAt": "O", "States": {"O": {"Type": "Map", "ItemsPath": "$.items", "MaxConcurrency": omc, "End": True,
+                                            "Iterator": {"StartAt": "I", "States": {"I": inner}}}}}
+    data = {"items": [{"m": [{"k": 1}, {"k": 2}]}, {"m": [{"k": 3}, {"k": 4}]}]}
+    expect = ("SUCCEEDED", [[{"v": 1}, {"v": 2}], [{"v": 3}, {"v": 4}]])
+    return _run(asl, data, [c0, c1, c2, c3, c4, c5, c6, c7, c8, c9, c10, c11], {}, which, "STANDARD", expect, max_steps=300)
+
+
+SCN["map_in_map"] = (["0 <= omc <= 2 and 0 <= imc <= 2"], 600, 1800, ("quick", "thorough"))
+scn.__dict__["map_in_map"] = map_in_map
